@@ -10,5 +10,5 @@ CONSTANTS
   WithBad = TRUE
   WithNative = FALSE
   SimPick = 0
-INVARIANTS TypeOK OutMatchesWant OutMatchesWantStrict EmittedConsistent Drained
+INVARIANTS TypeOK OutMatchesWant EmittedConsistent Drained
 CHECK_DEADLOCK FALSE
